@@ -44,17 +44,18 @@ func init() {
 			"(homestead without EIP-150, main-net schedule before HF1, main-net HF5 window without Byzantium, Byzantium without HF5, main-net after HF7); " +
 			"programs come from 14 generators cycled in fixed order (grammar walk with boundary-lattice operands, random bytes, truncated PUSH, adversarial jumps, " +
 			"lattice memory operands, recursion to the depth limit, precompiles 1-9, value calls, SELFDESTRUCT, static sandbox, failing frames with prior effects, " +
-			"stack limits, return data, top-level creation); gas from {0,1,2,20999,21000,1e5,1e6,block limit 4712388}, template-typical, uniformly below typical, " +
+			"stack limits, return data, top-level creation; the truncated-PUSH generator alternates with a directed family PUSH1 3;JUMP;JUMPDEST..;PUSHn rotating on the case index over every code-length residue mod 8, n in {32,31,25,24,17,16,9,8,1} and 0 or n-1 operand bytes), plus a leg that runs that family completely for lengths 5..72 x n 1..32 in every epoch as message and as init code; gas from {0,1,2,20999,21000,1e5,1e6,block limit 4712388}, template-typical, uniformly below typical, " +
 			"2^40/2^46 for depth recursion, and for effectful templates a second run with the gas cut uniformly inside the first run's consumption. " +
 			"non-trivial = at least 8 instructions executed and at least one of {memory grew, call, create, jump}; distinct = hash of (epoch, kind, code, aux code, input, gas, value).",
 		Legs: func(tier string) []fw.Leg {
 			legs := []fw.Leg{
+				{Name: "pushtail", Variant: "intpool", Batches: 1, Timeout: 2 * time.Hour},
 				{Name: "evm", Variant: "intpool", Batches: 16, Timeout: 4 * time.Hour},
 				{Name: "evm-race", Variant: "race", Batches: 4, Timeout: 4 * time.Hour},
 			}
 			if os.Getenv("VERIF_C07_LEGS") == "evm" {
 				// development only (seeded-break runs): skip the race build
-				legs = legs[:1]
+				legs = legs[:2]
 			}
 			return legs
 		},
@@ -68,6 +69,7 @@ func init() {
 				"failed_frame_checked_CALL": 100, "failed_frame_checked_CALLCODE": 100, "failed_frame_checked_DELEGATECALL": 100,
 				"failed_frame_checked_STATICCALL": 100, "failed_frame_checked_CREATE": 100,
 				"toplevel_root_compared": 1000, "memory_bound_checked_large": 100, "gas_cut_rerun": 1000,
+				"push32_tail_at_len_multiple_of_8_analysed": 40, "pushtail_programs": 37880,
 				"kind_call": 1000, "kind_create": 500, "kind_static": 100, "out_of_gas_exit": 1000,
 			}
 			for n := 1; n <= 8; n++ {
@@ -259,6 +261,11 @@ func (w *worker) exec(sp *spec, quiet bool) (out outcome) {
 	c.Count("kind_" + sp.Kind)
 	c.Count("epoch_" + e.name)
 	c.Count("tmpl_" + sp.Tmpl)
+	if n := len(code); n >= 8 && n%8 == 0 && code[n-1] == 0x7f && o.sawJump && strings.HasPrefix(sp.Code, "6003565b") {
+		// the bit-vector boundary of the JUMPDEST analysis: code length a multiple of 8,
+		// last byte a PUSH32 without any operand byte, analysed because a jump ran
+		c.Count("push32_tail_at_len_multiple_of_8_analysed")
+	}
 	if b := to.Bytes(); sp.Kind != "create" && pmsg == "" && new(big.Int).SetBytes(b).IsUint64() {
 		if n := new(big.Int).SetBytes(b).Uint64(); n >= 1 && n <= 8 && (n <= 4 || e.byz) {
 			c.Count(fmt.Sprintf("precompile_%d_called", n))
@@ -430,6 +437,9 @@ func run(c *fw.Ctx) {
 	}
 	var n int
 	switch c.Leg {
+	case "pushtail":
+		runPushTail(c, w)
+		return
 	case "evm-race":
 		n = c.Pick(250, 6000)
 	default:
@@ -449,7 +459,8 @@ func run(c *fw.Ctx) {
 		if t.needs != nil && !t.needs(e) {
 			e = epochs[[]string{"spring", "byzantium", "mainnet-window"}[cycle%3]]
 		}
-		sp := t.f(r, e, cycle/len(epochNames))
+		// rotation index of this (template, epoch) pair, interleaved over the batches
+		sp := t.f(r, e, (cycle/len(epochNames))*c.NBatch+c.Batch)
 		sp.Tmpl = t.name
 		finish(sp, r, e)
 		id := fmt.Sprintf("%s-%d", t.name, i)
@@ -470,6 +481,35 @@ func run(c *fw.Ctx) {
 		}
 		if profT != nil {
 			profT[t.name] += time.Since(t0)
+		}
+	}
+}
+
+// runPushTail: the whole family PUSH1 3; JUMP; JUMPDEST...; PUSHn for every code
+// length 5..72, every n 1..32, with no operand byte and with all but one, in
+// every epoch, as a message and as init code.
+func runPushTail(c *fw.Ctx, w *worker) {
+	for _, en := range epochNames {
+		e := epochs[en]
+		for total := 5; total <= 72; total++ {
+			for n := 1; n <= 32; n++ {
+				haves := []int{0, n - 1}
+				if n == 1 {
+					haves = haves[:1]
+				}
+				for _, have := range haves {
+					if total < 5+have {
+						continue
+					}
+					for _, kind := range []string{"call", "create"} {
+						r := c.Rand("pushtail", en, fmt.Sprint(total, n, have, kind))
+						sp := &spec{Tmpl: "pushtail", Kind: kind, Code: hx(pushTail(total, n, have)), Gas: 100000}
+						finish(sp, r, e)
+						c.Count("pushtail_programs")
+						c.Case(fmt.Sprintf("pushtail-%s-%d-%d-%d-%s", en, total, n, have, kind), sp, func() { w.exec(sp, false) })
+					}
+				}
+			}
 		}
 	}
 }
